@@ -123,7 +123,8 @@ def main(report, tier):
         if p['status'] == 'plan':
             for case in c13.plan_cases(p, N):
                 sweep.append((c13.check_spec, (p['unit'], N, case, 15000, True, True, False, True), 90 if tier == 'quick' else 600))
-    res = runner.run_tasks(sweep + jobs(tier))
+    from . import mnode
+    res = runner.run_tasks(sweep + jobs(tier) + mnode.jobs_for('C12', tier))
     results = [sweep_result_to_harness(r) if 'kernel' in r and 'N' in r else r for r in res]
     cov = summarize(report, results, 'C12')
     cov['kernels_swept'] = len(specs)
